@@ -13,8 +13,8 @@ Assumed semantics (the trusted part of this tie, restated in Base/PyDict.v):
     iteration over a dict / `.items()` in insertion order;
   * a set is a duplicate-free list; iterating over a set visits `set_order s`, where `set_order` is an ARBITRARY function handed to the translated
     method as a parameter (the theorems assume only that it returns a permutation of its argument) - Python's unspecified set order;
-  * int = Z; `raise` anywhere = the method returns None, and then the caller's view of the object is whatever the theorem says about None
-    (ImpLink proves no-raise-after-write separately where the property needs it).
+  * int = Z; an exception (`raise`, KeyError) ends the method with `PyExn st`, where st holds the CURRENT values of the fields the method writes -
+    what the caller's object looks like after the exception; a normal end is `PyOk result`;
 Subset (anything else raises Unsupported and the run fails closed): see the methods stmt/expr below - assignments to locals, `x, y = (a, b)`,
 `if/else`, `raise`, `return e`, `for k in d`, `for k, v in d.items()`, `for x in <set>`, `s.add(x)`, `self.f[k] op= e`, `self.f[a][b] (op)= e`,
 `self.f op= e`, calls of already translated methods on self, and the early-exit loop `for ..: if c: return CONST`."""
@@ -157,7 +157,7 @@ class Fn:
         return out
     def wrap(self, text):
         """close the lookups hoisted while translating the current statement around `text`"""
-        for t, look in reversed(self.pending): text = "match %s with None => None | Some %s =>\n  %s end" % (look, t, text)
+        for t, look in reversed(self.pending): text = "match %s with None => EXN_ | Some %s =>\n  %s end" % (look, t, text)
         self.pending = []; return text
     def state_tuple(self, vs): return "(" + ", ".join(vs) + ")" if len(vs) != 1 else vs[0]
     def assigned(self, stmts):
@@ -193,7 +193,7 @@ class Fn:
         if not ss: return k()
         s, rest = ss[0], ss[1:]; K = lambda: self.stmts(rest, k)
         if isinstance(s, ast.Expr) and isinstance(s.value, ast.Constant) and isinstance(s.value.value, str): return K()
-        if isinstance(s, ast.Raise): self.can_raise = True; return "None"
+        if isinstance(s, ast.Raise): self.can_raise = True; return "EXN_"
         if isinstance(s, ast.Return):
             if s.value is None: bad(s, "bare return")
             t, ty = self.expr(s.value)
@@ -216,7 +216,7 @@ class Fn:
                 args = self.call_args(callee, s.value); pre = self.pending; self.pending = []; self.can_raise = True
                 if tg.id in self.env: bad(s, "re-binding " + tg.id)
                 self.env[tg.id] = callee.rty; body = K(); self.pending = pre
-                return self.wrap("match %s_%s %s with None => None | Some %s =>\n  %s end" % (self.cls, s.value.func.attr, " ".join(args), tg.id, body))
+                return self.wrap("match %s_%s %s with PyExn _ => EXN_ | PyOk %s =>\n  %s end" % (self.cls, s.value.func.attr, " ".join(args), tg.id, body))
             if isinstance(tg, ast.Name):
                 t, ty = self.expr(s.value); pre = self.pending; self.pending = []
                 if tg.id in self.env: bad(s, "re-binding " + tg.id)
@@ -253,7 +253,7 @@ class Fn:
                 self.can_raise = self.can_raise or callee.can_raise
                 body = K(); self.pending = pre
                 if not callee.can_raise: return self.wrap("let %s := %s_%s %s in\n  %s" % (self.state_tuple(callee.writes), self.cls, c.func.attr, " ".join(args), body))
-                return self.wrap("match %s_%s %s with None => None | Some %s =>\n  %s end" % (self.cls, c.func.attr, " ".join(args), self.state_tuple(callee.writes), body))
+                return self.wrap("match %s_%s %s with PyExn %s => EXN_ | PyOk %s =>\n  %s end" % (self.cls, c.func.attr, " ".join(args), self.state_tuple(callee.writes), self.state_tuple(callee.writes), body))
         if isinstance(s, ast.If):
             c, tc = self.expr(s.test)
             if tc != "bool": bad(s, "condition of type " + tc)
@@ -286,9 +286,9 @@ class Fn:
             for x in vs:
                 if x in self.env: bad(s, "loop variable shadows " + x)
             self.env.update(vs); st = self.state_tuple(carried)
-            inner = self.stmts(s.body, lambda: "Some %s" % st); self.env = env0
+            inner = self.stmts(s.body, lambda: "PyOk %s" % st); self.env = env0
             body = K(); self.pending = pre; self.loop_used = True
-            return self.wrap("match fold_left (fun acc_ %s => match acc_ with None => None | Some %s => %s\n  %s end) %s (Some %s) with None => None | Some %s =>\n  %s end"
+            return self.wrap("match fold_left (fun acc_ %s => match acc_ with PyExn e_ => PyExn e_ | PyOk %s => %s\n  %s end) %s (PyOk %s) with PyExn e_ => PyExn e_ | PyOk %s =>\n  %s end"
                              % (binder, st, bind, inner, lst, st, st, body))
         bad(s, "statement " + ast.unparse(s)[:50])
     def store(self, s, tg, op, value, K):
@@ -323,13 +323,17 @@ class Fn:
         body = self.stmts(n.body, lambda: "END_")
         if self.rty is not None and "END_" in body: bad(n, "control can reach the end of a method that returns a value")
         opt = self.can_raise
+        ftypes0 = {v[0]: COQTY[v[1]] for v in FIELDS[self.cls].values()}
+        wt = " * ".join(ftypes0[w] for w in self.writes) if self.writes else "unit"          # the state an exception leaves behind: the written fields
+        exn = "PyExn %s" % (self.state_tuple(self.writes) if self.writes else "tt")
         if self.rty is None:
             if not self.writes: bad(n, "a method without result and without effect")
-            res = self.state_tuple(self.writes); rt = " * ".join({v[0]: COQTY[v[1]] for v in FIELDS[self.cls].values()}[w] for w in self.writes)
-            body = body.replace("END_", ("Some %s" % res) if opt else res); rt = ("option (%s)" % rt) if opt else rt
+            res = self.state_tuple(self.writes)
+            body = body.replace("END_", ("PyOk %s" % res) if opt else res); rt = ("pyres (%s) (%s)" % (wt, wt)) if opt else wt
         else:
-            body = body.replace("RET_(", "Some (" if opt else "("); rt = ("option %s" % COQTY[self.rty]) if opt else COQTY[self.rty]
-        if not opt and "None" in body: bad(n, "internal: option result in a method that cannot raise")
+            body = body.replace("RET_(", "PyOk (" if opt else "("); rt = ("pyres (%s) %s" % (wt, COQTY[self.rty])) if opt else COQTY[self.rty]
+        if not opt and ("EXN_" in body or "PyExn" in body): bad(n, "internal: exception in a method that cannot raise")
+        body = body.replace("EXN_", exn)
         ftypes = {v[0]: COQTY[v[1]] for v in FIELDS[self.cls].values()}
         ps = [(f, ftypes[f]) for f in self.reads] + ([("set_order", "list nat -> list nat")] if self.uses_order else []) + [(p, COQTY[t]) for p, t in self.params]
         return "Definition %s_%s %s : %s :=\n  %s." % (self.cls, n.name, " ".join("(%s : %s)" % p for p in ps), rt, body)
